@@ -28,6 +28,7 @@ Record case := mkCase {
   c_pst : bool;                        (* parseST (OpenMetricsSkipSTSeries) *)
   c_partial : bool;                    (* wrapped parser is OpenMetricsParser (Exemplar() leaves
                                           HasTs/Ts untouched for an exemplar without timestamp) *)
+  c_proto : bool;                      (* protobuf payload: ProtobufParser's own conversion, no NHCBParser *)
   c_letab : list (string * num);       (* strconv.ParseFloat of every le value that parses *)
   c_base : list bentry; c_eof : bool;
   c_out : list oentry; c_oeof : bool
@@ -67,10 +68,19 @@ Definition oentry_eqb (a b : oentry) : bool :=
    Both are committed in /repo (e91d1efff6, 1485e993ee). *)
 Definition code_ts_fixed : bool := true.
 Definition code_keepex_fixed : bool := true.
+Definition code_exzero_fixed : bool := true.      (* notes/C36_fix3.diff *)
+Definition code_exreset_fixed : bool := true.     (* notes/C36_fix4.diff *)
+Definition code_validate_fixed : bool := false.    (* notes/C36_fix5.diff *)
 
 (* ---- agree ----------------------------------------------------------------------------------- *)
+Definition agree_proto (c : case) : bool :=
+  let '(out, ok) := proto_run (parse_of (c_letab c)) (c_keep c) (c_base c) in
+  c_eof c && Bool.eqb ok (c_oeof c) && list_eqb oentry_eqb out (c_out c).
+
 Definition agree (c : case) : bool :=
-  let '(out, oom) := run (parse_of (c_letab c)) (mkCfg (c_keep c) (c_pst c) (c_partial c) code_ts_fixed code_keepex_fixed) (c_base c) (c_eof c) in
+  if c_proto c then agree_proto c else
+  let '(out, oom) := run (parse_of (c_letab c)) (mkCfg (c_keep c) (c_pst c) (c_partial c) code_ts_fixed code_keepex_fixed
+              code_exzero_fixed code_exreset_fixed code_validate_fixed) (c_base c) (c_eof c) in
   negb oom && Bool.eqb (c_eof c) (c_oeof c) && list_eqb oentry_eqb out (c_out c).
 
 (* ---- holds: the property on the two observed streams --------------------------------------- *)
